@@ -5,7 +5,7 @@
 #![allow(non_snake_case, unused, non_camel_case_types)]
 use vstd::prelude::*;
 use std::ops::Deref;
-use std::collections::HashSet;
+use std::collections::{HashSet, HashMap};
 verus! {
 global size_of usize == 8;
 
@@ -181,6 +181,11 @@ impl MerkleNode {
 //@ contract
         ensures r == self.len,
 //@ end
+//@ extract merkledb/src/merklenode.rs in `impl MerkleNode` fn new
+//@ ret r
+//@ contract
+        ensures r.id == id, r.hash == hash, r.len == len, r.children == children,
+//@ end
 }
 spec fn nview(s: Seq<MerkleNode>) -> Seq<HL> { Seq::new(s.len(), |i: int| s[i].hl()) }
 
@@ -192,6 +197,8 @@ fn hash_node_sequence(hash: &[MerkleNode]) -> (r: MerkleHash) ensures r == H_int
 #[verifier::external_body]
 struct MerkleNodeAttributes { _p: u8 }
 impl Default for MerkleNodeAttributes { #[verifier::external_body] fn default() -> Self { unimplemented!() } }
+impl Clone for MerkleNodeAttributes { #[verifier::external_body] fn clone(&self) -> Self { unimplemented!() } }
+impl Copy for MerkleNodeAttributes {}
 impl MerkleNodeAttributes {
     #[verifier::external_body] fn set_file(&mut self) { unimplemented!() }
     #[verifier::external_body] fn set_cas(&mut self) { unimplemented!() }
@@ -207,6 +214,11 @@ trait MerkleDBBase {
     fn maybe_add_node(&mut self, hash: &MerkleHash, len: usize, children: Vec<(MerkleNodeId, usize)>) -> (r: (MerkleNode, bool))
         requires old(self).inv(), len == len_of(*hash),
         ensures final(self).inv(), r.0.hash == *hash, r.0.len == len;
+    fn find_node_by_id(&self, h: MerkleNodeId) -> (r: Option<MerkleNode>);
+    fn hash_to_id(&self, h: &MerkleHash) -> (r: Option<MerkleNodeId>);
+    fn find_node(&self, h: &MerkleHash) -> (r: Option<MerkleNode>)
+        requires self.inv(),
+        ensures match r { Some(n) => n.hash == *h && n.len == len_of(n.hash), None => true };
     fn node_attributes(&self, h: MerkleNodeId) -> (r: Option<MerkleNodeAttributes>);
     fn set_node_attributes(&mut self, h: MerkleNodeId, attr: &MerkleNodeAttributes) -> (r: Option<()>)
         ensures old(self).inv() ==> final(self).inv();
@@ -329,22 +341,82 @@ trait MerkleDBHighLevelMethodsV2: MerkleDBBase {
 //@ end
 }
 
-// the in-memory store: opaque stub.  A fresh store holds exactly node 0 = (all-zero hash, length 0) (merklememdb.rs:42-68)
+// ---- the in-memory store used by all three paths: the REAL struct and the real `maybe_add_node`/`find_node` are under proof,
+// so the assumed trait contract above is discharged for this store (given the HashMap key model of DataHash)
+// R11 stub for std::path::PathBuf (only stored; never read on these paths)
 #[verifier::external_body]
-struct MerkleMemDB { _p: u8 }
+struct VxPathBuf { _p: u8 }
+impl VxPathBuf { #[verifier::external_body] fn default() -> VxPathBuf { unimplemented!() } }
+pub assume_specification<'a, T: Copy> [std::option::Option::<&T>::copied] (o: Option<&'a T>) -> (r: Option<T>)
+    ensures r == match o { Some(x) => Some(*x), None => None };
+// ASSUMED (data_hash.rs:96-102, 254-...): Eq compares the four words, Hash is a function of them => std HashMap key model
+impl PartialEq for DataHash { #[verifier::external_body] fn eq(&self, o: &Self) -> bool { unimplemented!() } }
+impl Eq for DataHash {}
+impl std::hash::Hash for DataHash { #[verifier::external_body] fn hash<H: std::hash::Hasher>(&self, state: &mut H) { unimplemented!() } }
+#[verifier::external_body]
+pub broadcast proof fn axiom_datahash_key_model()
+    ensures #[trigger] vstd::std_specs::hash::obeys_key_model::<DataHash>()
+{}
+
+//@ extract merkledb/src/merklememdb.rs struct MerkleMemDB
+//@ subst `path: PathBuf` => `path: VxPathBuf` :: R11 stub type for std::path::PathBuf (exposing the std type drags in its Deref impl, which Verus' trait checker rejects)
+//@ subst `FxHashMap<MerkleHash, MerkleNodeId>` => `HashMap<MerkleHash, MerkleNodeId>` :: R11 stub type: rustc_hash::FxHashMap is std HashMap with another hasher; std's HashMap (with vstd's specification) stands in for it
+//@ end
 impl MerkleDBBase for MerkleMemDB {
-    uninterp spec fn inv(&self) -> bool;
-    #[verifier::external_body]
-    fn maybe_add_node(&mut self, hash: &MerkleHash, len: usize, children: Vec<(MerkleNodeId, usize)>) -> (r: (MerkleNode, bool)) { unimplemented!() }
+    // every hash in the index points at a stored node with that hash; every stored node carries the length of its hash
+    spec fn inv(&self) -> bool {
+        &&& forall|h: MerkleHash| #[trigger] self.hashdb@.contains_key(h) ==> self.hashdb@[h] < self.nodedb@.len() && self.nodedb@[self.hashdb@[h] as int].hash == h
+        &&& forall|i: int| 0 <= i < self.nodedb@.len() ==> len_of((#[trigger] self.nodedb@[i]).hash) == self.nodedb@[i].len
+    }
+//@ extract merkledb/src/merklememdb.rs in `impl MerkleDBBase for MerkleMemDB` fn maybe_add_node
+//@ ret r
+//@ contract
+        ensures r.1 == !old(self).hashdb@.contains_key(*hash),
+//@ body-start
+        broadcast use axiom_datahash_key_model;
+//@ end
+//@ extract merkledb/src/merklememdb.rs in `impl MerkleDBBase for MerkleMemDB` fn find_node_by_id
+//@ ret r
+//@ contract
+        ensures match r { Some(n) => h < self.nodedb@.len() && n == self.nodedb@[h as int], None => h >= self.nodedb@.len() },
+//@ end
+//@ extract merkledb/src/merklememdb.rs in `impl MerkleDBBase for MerkleMemDB` fn hash_to_id
+//@ ret r
+//@ contract
+        ensures match r { Some(i) => self.hashdb@.contains_key(*h) && self.hashdb@[*h] == i, None => !self.hashdb@.contains_key(*h) },
+//@ body-start
+        broadcast use axiom_datahash_key_model;
+//@ end
+//@ extract merkledb/src/merklememdb.rs in `impl MerkleDBBase for MerkleMemDB` fn find_node
+//@ ret r
+//@ rules R9o
+//@ contract
+        ensures r.is_some() == self.hashdb@.contains_key(*h),
+//@ end
     #[verifier::external_body]
     fn node_attributes(&self, h: MerkleNodeId) -> (r: Option<MerkleNodeAttributes>) { unimplemented!() }
-    #[verifier::external_body]
-    fn set_node_attributes(&mut self, h: MerkleNodeId, attr: &MerkleNodeAttributes) -> (r: Option<()>) { unimplemented!() }
+//@ extract merkledb/src/merklememdb.rs in `impl MerkleDBBase for MerkleMemDB` fn set_node_attributes
+//@ ret r
+//@ end
 }
 impl MerkleDBHighLevelMethodsV2 for MerkleMemDB {}
 impl MerkleMemDB {
-    #[verifier::external_body]
-    fn default() -> (r: MerkleMemDB) ensures len_of(zero_hash()) == 0 ==> r.inv() { unimplemented!() }
+//@ extract merkledb/src/merklememdb.rs in `impl Default for MerkleMemDB` fn default
+//@ ret r
+//@ subst `PathBuf::default()` => `VxPathBuf::default()` :: R11 stub type for std::path::PathBuf
+//@ subst `FxHashMap::default()` => `HashMap::new()` :: R11 stub type (see struct MerkleMemDB): the empty map
+//@ contract
+        ensures len_of(zero_hash()) == 0 ==> r.inv(),
+//@ before `ret.hashdb.insert(`
+        broadcast use axiom_datahash_key_model;
+//@ after `ret.hashdb.insert(MerkleHash::default(), 0);`
+        proof {
+            if len_of(zero_hash()) == 0 {
+                lemma_zero_unique(ret.nodedb@[0].hash);
+                assert forall|h: MerkleHash| #[trigger] ret.hashdb@.contains_key(h) implies h == zero_hash() by { lemma_zero_unique(h); }
+            }
+        }
+//@ end
 }
 
 struct MerkleDBError { _p: u8 }
@@ -420,11 +492,10 @@ impl MerkleNode {
 //@ extract merkledb/src/merklenode.rs in `impl Default for MerkleNode` fn default
 //@ ret r
 //@ contract
-        ensures is_zero(r.hash),
+        ensures is_zero(r.hash), r.len == 0,
 //@ end
 }
 // ASSUMED (data_hash.rs:110-114): `partial_cmp` is `Some(self.cmp(other))`
-impl PartialEq for DataHash { #[verifier::external_body] fn eq(&self, o: &Self) -> bool { unimplemented!() } }
 impl PartialOrd for DataHash {
     #[verifier::external_body]
     fn partial_cmp(&self, other: &Self) -> (r: Option<std::cmp::Ordering>) ensures r.is_some() { unimplemented!() }
